@@ -4,9 +4,11 @@ use serde_json::Value;
 use crate::framework::{Ctx, Report, Tier};
 
 pub mod c01;
+pub mod c06;
 pub mod c12;
 pub mod c13;
 pub mod c15;
+pub mod c16;
 pub mod c19;
 pub mod jobs;
 
@@ -25,9 +27,11 @@ pub struct CheckDef {
 pub fn all() -> Vec<CheckDef> {
     let mut v = vec![c01::def()];
     v.extend(jobs::defs());
+    v.push(c06::def());
     v.push(c12::def());
     v.push(c13::def());
     v.push(c15::def());
+    v.push(c16::def());
     v.push(c19::def());
     v
 }
